@@ -644,6 +644,32 @@ DecRdata(t, rd) == DecFields(FieldsOf(t), 1, rd, 0, <<>>)
 Decodable(t)    == \A i \in 1..Len(FieldsOf(t)) : FieldsOf(t)[i].k \in DecodableKinds
 
 -----------------------------------------------------------------------------
+(* C08's exactness clause speaks of messages made of the common types whose   *)
+(* names and character-strings need no escape sequence in presentation form:  *)
+(* in a name every octet is printable and not special (Names!PresOctet), in a *)
+(* character-string every octet is printable and neither quote nor backslash. *)
+CommonTypes == {1, 28, 2, 5, 6, 12, 15, 33, 16, 39, 14, 17, 18, 36, 35, 13}
+    \* A AAAA NS CNAME SOA PTR MX SRV TXT DNAME MINFO RP AFSDB KX NAPTR HINFO
+
+NameEscapeFree(n) == \A i \in 1..Len(n) : \A j \in 1..Len(n[i]) : Len(PresOctet(n[i][j])) = 1
+StrEscapeFree(s)  == \A j \in 1..Len(s) : s[j] >= 32 /\ s[j] <= 126 /\ s[j] # 34 /\ s[j] # 92
+
+PlainField(e, f) ==
+  LET v == f[e.n] IN
+  CASE e.k \in {"name", "cname"} -> NameEscapeFree(v)
+    [] e.k = "str"  -> StrEscapeFree(v)
+    [] e.k = "strs" -> \A i \in 1..Len(v) : StrEscapeFree(v[i])
+    [] OTHER -> TRUE
+PlainRR(rr) ==
+  /\ ~rr.nodata /\ rr.type \in CommonTypes /\ NameEscapeFree(rr.name)
+  /\ \A i \in 1..Len(FieldsOf(rr.type)) : PlainField(FieldsOf(rr.type)[i], rr.f)
+PlainMsg(m) ==
+  /\ \A i \in 1..Len(m.q) : NameEscapeFree(m.q[i].name)
+  /\ \A i \in 1..Len(m.an) : PlainRR(m.an[i])
+  /\ \A i \in 1..Len(m.ns) : PlainRR(m.ns[i])
+  /\ \A i \in 1..Len(m.ar) : PlainRR(m.ar[i])
+
+-----------------------------------------------------------------------------
 (* The packing plan of a message: the names EncMsg emits, in order, each with  *)
 (* the offset it starts at and whether RFC 3597 s.4 lets a sender compress it  *)
 (* (owner names, question names and cname fields).  Used by Compress (C04/C08).*)
